@@ -229,7 +229,8 @@ def case(args):
                 for s, t in vio:
                     kindv = 'correspondence' if s.startswith('corr:') else 'monitor'
                     out['violations'].append({'kind': kindv, 'signature': s, 'detail': t,
-                                              'replay': {'type': 'c19-history', 'ops': hist, 'seed': seed, 'observed': t}})
+                                              'replay': {'type': 'c19-history', 'module': 'harness.props.c19', 'ops': hist, 'seed': seed,
+                                                         'nops': nops, 'observed': t}})
                 break
     except Exception:
         out['error'] = traceback.format_exc()
@@ -266,3 +267,22 @@ def run(chk):
     chk.cov['rule'] = ('histories of 40 steps: trait / class create, rename (1.2-1.6), idempotent PUT (1.7+), delete, inventories and provider '
                        'traits putting names in use, malformed and non-custom names sent raw, and forced start-up synchronisation (once or '
                        'twice) after deleting random subsets (none, few, all) of the standard rows by SQL; distinct = (operation, status) pairs')
+
+
+def replay(doc):
+    """re-run the generated history of the recorded seed (the generator is deterministic in the seed) on the
+    real application and the model; exit 1 when the recorded signature shows up again"""
+    rp = doc['replay']
+    _init()
+    try:
+        res = case((rp['seed'], rp.get('nops', 40)))
+    finally:
+        _MODEL.close() if hasattr(_MODEL, 'close') else None
+    if 'error' in res:
+        print(res['error'])
+        return 2
+    for v in res['violations']:
+        print('  %s  %s' % (v['signature'], v['detail']))
+    hit = [v for v in res['violations'] if v['signature'] == doc.get('signature')]
+    print('REPRODUCED' if hit else 'not reproduced')
+    return 1 if hit else 0
